@@ -11,7 +11,7 @@ mkdir -p $T/verif/checker && ln -s /verif/checker/testdata $T/verif/checker/test
 (cd $T/repo && git apply --whitespace=nowarn "$P") || { echo "PATCH DOES NOT APPLY: $P"; exit 2; }
 rc=0
 for id in $PROPS; do
-  o=$(/verif/bin/scicheck -property $id -tier quick -repo $T/repo -verif $T/verif 2>&1); c=$?
+  o=$(${SCICHECK:-/verif/bin/scicheck} -property $id -tier quick -repo $T/repo -verif $T/verif 2>&1); c=$?
   if [ $c -ne 0 ]; then rc=1; echo "$o" | grep -E "^(VIOLATED|UNDECIDED|INFRA)|^    why:" | cut -c1-420; fi
 done
 [ $rc -eq 0 ] && echo "SILENT: $P"
